@@ -23,7 +23,7 @@ ASSUMPTIONS = [
 
 COLS = ["seqid", "source", "featuretype", "start", "end", "score", "strand", "frame", "attributes", "extra", "file_order", "length"]
 SEQIDS = ["chr1", "Chr1", "CHR1", "χ1", "10", "9", "2", "chr10", "chr2"]
-FTS = ["gene", "exon", "CDS", "Gene", "mRNA"]
+FTS = ["gene", "exon", "CDS", "Gene", "mRNA", "CDS,exon"]  # a featuretype may contain a comma (merged featuretypes do): it is one featuretype
 
 
 def sk(v):
@@ -46,7 +46,7 @@ class OrderLeg(object):
         @st.composite
         def query(draw):
             method = draw(st.sampled_from(["all_features", "features_of_type"]))
-            ft = draw(st.sampled_from([None, "exon", "gene", ["exon", "CDS"], ("gene", "Gene"), ["mRNA"], ("nothing",)]))
+            ft = draw(st.sampled_from([None, "exon", "gene", ["exon", "CDS"], ("gene", "Gene"), ["mRNA"], ("nothing",), "CDS,exon", ["CDS,exon", "gene"]]))
             if method == "features_of_type" and ft is None:
                 ft = "exon"
             ob_kind = draw(st.sampled_from(["none", "str", "str", "tuple", "tuple"]))
